@@ -30,7 +30,9 @@ RULE = ("(a) EXHAUSTIVE: every one of the 10^6 sub-second microsecond values (x 
         ' Raw timestamp chunks of a lazily opened file are collected first and compared afterwards (second chunk '
         'reversed); field accessors and scalar equality of TimestampArray are checked.'
         ' Values are also handed over in nanosecond unit (1678 - 2262); a re-used root object gets a timestamp '
-        'property changed in place.')
+        'property changed in place.'
+        ' time_track is also checked when the other waveform properties LabVIEW writes are present (wf_samples = block '
+        'length).')
 ASSUMPTIONS = [
     "exact time = 1904-01-01 + seconds + fractions/2^64 as a Fraction",
     "'within one unit' is checked as <= (1 + 1e-6) units: float64 evaluation may overshoot a unit by ~1e-10 units",
